@@ -15,11 +15,14 @@ pub type Pkg = msi::Package<Cursor<Vec<u8>>>;
 pub struct Session {
     /// scratch package used by the in-memory summary-information requests
     pub scratch: Option<Pkg>,
+    /// the package of the current session and its shared medium
+    pub pkg: Option<crate::session::Pkg>,
+    pub medium: Option<crate::session::Medium>,
 }
 
 impl Session {
     pub fn new() -> Session {
-        Session { scratch: None }
+        Session { scratch: None, pkg: None, medium: None }
     }
     pub fn scratch(&mut self) -> &mut Pkg {
         if self.scratch.is_none() {
@@ -134,10 +137,256 @@ fn guarded<F: FnOnce() -> String>(f: F) -> String {
     }
 }
 
+fn parse_cond(toks: &[&str]) -> Option<(Option<E>, usize)> {
+    if *toks.first()? == "-" {
+        Some((None, 1))
+    } else {
+        let (e, n) = E::parse(toks)?;
+        Some((Some(e), n))
+    }
+}
+
+/// package-level requests; None = not a session request
+fn exec_session(sess: &mut Session, toks: &[&str]) -> Option<String> {
+    use crate::session::*;
+    use std::io::{Read, Write};
+    let cmd = toks[0];
+    match cmd {
+        "new" => {
+            let p: usize = toks[1].parse().unwrap();
+            sess.pkg = None;
+            let m = Medium::new(Vec::new());
+            sess.medium = Some(m.clone());
+            return Some(match msi::Package::create(ptype_of(p), m) {
+                Ok(pkg) => {
+                    sess.pkg = Some(pkg);
+                    "ok".into()
+                }
+                Err(e) => format!("err {}", kind_name(&e)),
+            });
+        }
+        "load" => {
+            sess.pkg = None;
+            let pt = if toks[1] == "none" { None } else { Some(toks[1].parse::<usize>().unwrap()) };
+            let entries = parse_entries(toks[2]).unwrap();
+            let bytes = match build_container(pt, &entries) {
+                Ok(b) => b,
+                Err(e) => return Some(format!("build-err {}", kind_name(&e))),
+            };
+            let m = Medium::new(bytes);
+            sess.medium = Some(m.clone());
+            return Some(match msi::Package::open(m) {
+                Ok(pkg) => {
+                    sess.pkg = Some(pkg);
+                    "ok".into()
+                }
+                Err(e) => format!("err {}", kind_name(&e)),
+            });
+        }
+        "create_table" | "drop_table" | "insert" | "update" | "delete" | "select" | "stream_write"
+        | "stream_read" | "stream_remove" | "has_stream" | "streams" | "has_sig" | "remove_sig"
+        | "sum_set" | "sum_clear" | "set_db_cp" | "flush" | "reopen" | "snapshot" | "raw" => {}
+        _ => return None,
+    }
+    if sess.pkg.is_none() {
+        return Some("no-package".into());
+    }
+    if cmd == "reopen" {
+        let mode = toks[1];
+        let pkg = sess.pkg.take().unwrap();
+        let medium = sess.medium.clone().unwrap();
+        let closed: Result<(), String> = match mode {
+            "flush" => {
+                let mut pkg = pkg;
+                match pkg.flush() {
+                    // crash right after a successful flush: the bytes on the medium now,
+                    // without running any destructor of the package
+                    Ok(()) => {
+                        let bytes = medium.snapshot_bytes();
+                        std::mem::forget(pkg);
+                        sess.medium = Some(Medium::new(bytes));
+                        Ok(())
+                    }
+                    Err(e) => {
+                        sess.pkg = Some(pkg);
+                        Err(format!("close-err {}", kind_name(&e)))
+                    }
+                }
+            }
+            "into_inner" => match pkg.into_inner() {
+                Ok(m) => {
+                    sess.medium = Some(Medium::new(m.snapshot_bytes()));
+                    Ok(())
+                }
+                Err(e) => Err(format!("close-err {}", kind_name(&e))),
+            },
+            _ => {
+                drop(pkg);
+                sess.medium = Some(Medium::new(medium.snapshot_bytes()));
+                Ok(())
+            }
+        };
+        if let Err(msg) = closed {
+            return Some(msg);
+        }
+        let m = sess.medium.clone().unwrap();
+        return Some(match msi::Package::open(m) {
+            Ok(pkg) => {
+                sess.pkg = Some(pkg);
+                "ok".into()
+            }
+            Err(e) => format!("err {}", kind_name(&e)),
+        });
+    }
+    let medium = sess.medium.clone().unwrap();
+    let pkg = sess.pkg.as_mut().unwrap();
+    Some(match cmd {
+        "create_table" => {
+            let name = str_of_hex(toks[1]).unwrap();
+            let cols: Vec<msi::Column> =
+                toks[2..].iter().map(|t| ColDef::parse(t).unwrap().to_msi()).collect();
+            res_unit(pkg.create_table(name, cols))
+        }
+        "drop_table" => res_unit(pkg.drop_table(&str_of_hex(toks[1]).unwrap())),
+        "insert" => {
+            let t = str_of_hex(toks[1]).unwrap();
+            let k: usize = toks[2].parse().unwrap();
+            let mut pos = 3;
+            let mut q = msi::Insert::into(t);
+            for _ in 0..k {
+                let n: usize = toks[pos].parse().unwrap();
+                let vals: Vec<msi::Value> =
+                    toks[pos + 1..pos + 1 + n].iter().map(|v| V::parse(v).unwrap().to_msi()).collect();
+                pos += 1 + n;
+                q = q.row(vals);
+            }
+            res_unit(pkg.insert_rows(q))
+        }
+        "update" => {
+            let t = str_of_hex(toks[1]).unwrap();
+            let k: usize = toks[2].parse().unwrap();
+            let mut q = msi::Update::table(t);
+            for i in 0..k {
+                q = q.set(str_of_hex(toks[3 + 2 * i]).unwrap(), V::parse(toks[4 + 2 * i]).unwrap().to_msi());
+            }
+            let (cond, _) = parse_cond(&toks[3 + 2 * k..]).unwrap();
+            if let Some(e) = cond {
+                q = q.with(e.to_msi());
+            }
+            res_unit(pkg.update_rows(q))
+        }
+        "delete" => {
+            let mut q = msi::Delete::from(str_of_hex(toks[1]).unwrap());
+            let (cond, _) = parse_cond(&toks[2..]).unwrap();
+            if let Some(e) = cond {
+                q = q.with(e.to_msi());
+            }
+            res_unit(pkg.delete_rows(q))
+        }
+        "select" => {
+            let (q, _) = parse_select(&toks[1..]).unwrap();
+            match pkg.select_rows(q) {
+                Ok(rows) => rows_reply(rows),
+                Err(e) => format!("err {}", kind_name(&e)),
+            }
+        }
+        "stream_write" => {
+            let name = str_of_hex(toks[1]).unwrap();
+            let data = bytes_of_hex(toks[2]).unwrap();
+            match pkg.write_stream(&name) {
+                Ok(mut w) => res_unit(w.write_all(&data).and_then(|_| w.flush())),
+                Err(e) => format!("err {}", kind_name(&e)),
+            }
+        }
+        "stream_read" => match pkg.read_stream(&str_of_hex(toks[1]).unwrap()) {
+            Ok(mut r) => {
+                let mut data = vec![];
+                match r.read_to_end(&mut data) {
+                    Ok(_) => hex_of_bytes(&data),
+                    Err(e) => format!("err {}", kind_name(&e)),
+                }
+            }
+            Err(e) => format!("err {}", kind_name(&e)),
+        },
+        "stream_remove" => res_unit(pkg.remove_stream(&str_of_hex(toks[1]).unwrap())),
+        "has_stream" => (pkg.has_stream(&str_of_hex(toks[1]).unwrap()) as i32).to_string(),
+        "streams" => {
+            let mut v: Vec<String> = pkg.streams().map(|n| hex_of_str(&n)).collect();
+            v.sort();
+            v.join(",")
+        }
+        "has_sig" => (pkg.has_digital_signature() as i32).to_string(),
+        "remove_sig" => res_unit(pkg.remove_digital_signature()),
+        "sum_set" => {
+            let arg = toks[2];
+            let si = pkg.summary_info_mut();
+            match toks[1] {
+                "title" => si.set_title(str_of_hex(arg).unwrap()),
+                "subject" => si.set_subject(str_of_hex(arg).unwrap()),
+                "author" => si.set_author(str_of_hex(arg).unwrap()),
+                "comments" => si.set_comments(str_of_hex(arg).unwrap()),
+                "app" => si.set_creating_application(str_of_hex(arg).unwrap()),
+                "arch" => si.set_arch(str_of_hex(arg).unwrap()),
+                "langs" => {
+                    let ls: Vec<msi::Language> = if arg == "-" {
+                        vec![]
+                    } else {
+                        arg.split(',').map(|c| msi::Language::from_code(c.parse().unwrap())).collect()
+                    };
+                    si.set_languages(&ls)
+                }
+                "wc" => si.set_word_count(arg.parse().unwrap()),
+                "uuid" => si.set_uuid(uuid::Uuid::parse_str(arg).unwrap()),
+                "ctime" => {
+                    let (a, b) = arg.split_once('.').unwrap();
+                    si.set_creation_time(systime_of(a.parse().unwrap(), b.parse().unwrap()).unwrap())
+                }
+                "cp" => si.set_codepage(cp_by_name(arg).unwrap()),
+                _ => return Some("bad-request".into()),
+            }
+            "ok".into()
+        }
+        "sum_clear" => {
+            let si = pkg.summary_info_mut();
+            match toks[1] {
+                "title" => si.clear_title(),
+                "subject" => si.clear_subject(),
+                "author" => si.clear_author(),
+                "comments" => si.clear_comments(),
+                "app" => si.clear_creating_application(),
+                "arch" => si.clear_arch(),
+                "langs" => si.clear_languages(),
+                "wc" => si.clear_word_count(),
+                "uuid" => si.clear_uuid(),
+                "ctime" => si.clear_creation_time(),
+                _ => return Some("bad-request".into()),
+            }
+            "ok".into()
+        }
+        "set_db_cp" => {
+            pkg.set_database_codepage(cp_by_name(toks[1]).unwrap());
+            "ok".into()
+        }
+        "flush" => res_unit(pkg.flush()),
+        "snapshot" => snapshot(pkg),
+        "raw" => raw_tok(&medium.snapshot_bytes()),
+        _ => "bad-request".into(),
+    })
+}
+
 pub fn exec_line(sess: &mut Session, line: &str) -> String {
     let toks: Vec<&str> = line.split_ascii_whitespace().collect();
     if toks.is_empty() {
         return String::new();
+    }
+    {
+        let t = toks.clone();
+        let r = catch_unwind(AssertUnwindSafe(|| exec_session(sess, &t)));
+        match r {
+            Ok(Some(s)) => return s,
+            Ok(None) => {}
+            Err(_) => return "panic".to_string(),
+        }
     }
     guarded(|| match toks[0] {
         "lang_tag" => {
